@@ -9,6 +9,16 @@ package excellent
 //@ pred inputOK() bool := 0 <= ghost.scanPos && ghost.scanPos <= len(ghost.scanIn) && (forall k int :: (0 <= k && k < len(ghost.scanIn)) ==> ghost.scanIn[k] != eof)
 //@ pred inOK(r *xinput) bool := r != nil && r.base != nil && 0 <= r.unreadCount && r.unreadCount <= len(r.unreadRunes) && len(r.unreadRunes) == 4
 
+// the k-th rune the scanner will see next (k = 0, 1): from the unread stack first, then from the input, eof beyond its end;
+// netPos: how far the scanner has really got (runes handed out minus real runes - not end-of-input markers - pushed back)
+//@ pred upcoming(r *xinput, k int) rune := (r.unreadCount > k ? r.unreadRunes[r.unreadCount - 1 - k] : (ghost.scanPos + (k - r.unreadCount) < len(ghost.scanIn) ? ghost.scanIn[ghost.scanPos + (k - r.unreadCount)] : eof))
+//@ pred pending(r *xinput) int := ((r.unreadCount > 0 && r.unreadRunes[0] != eof) ? 1 : 0) + ((r.unreadCount > 1 && r.unreadRunes[1] != eof) ? 1 : 0) + ((r.unreadCount > 2 && r.unreadRunes[2] != eof) ? 1 : 0) + ((r.unreadCount > 3 && r.unreadRunes[3] != eof) ? 1 : 0)
+//@ pred netPos(r *xinput) int := ghost.scanPos - pending(r)
+// what the scanner takes for the start of an identifier (a function of the rune: unicode tables)
+//@ func isNameChar
+//@   trusted
+//@   pure
+
 // read: the most recently unread rune if there is one, else the next rune of the input, else eof
 //@ func (r *xinput) read
 //@   nopanic
@@ -17,12 +27,15 @@ package excellent
 //@   ensures [from_stack] old(r.unreadCount) > 0 ==> (result == old(r.unreadRunes[r.unreadCount - 1]) && r.unreadCount == old(r.unreadCount) - 1 && ghost.scanPos == old(ghost.scanPos))
 //@   ensures [from_input] (old(r.unreadCount) == 0 && old(ghost.scanPos) < len(ghost.scanIn)) ==> (result == ghost.scanIn[old(ghost.scanPos)] && ghost.scanPos == old(ghost.scanPos) + 1 && r.unreadCount == 0)
 //@   ensures [at_end] (old(r.unreadCount) == 0 && old(ghost.scanPos) >= len(ghost.scanIn)) ==> (result == eof && ghost.scanPos == old(ghost.scanPos) && r.unreadCount == 0)
+//@   ensures [is_upcoming] result == old(upcoming(r, 0))
+//@   ensures [advances] netPos(r) == old(netPos(r)) + (result != eof ? 1 : 0)
 //@   ensures [ok] inOK(r) && inputOK()
 
 //@ func (r *xinput) unread
 //@   nopanic
 //@   requires inOK(r) && r.unreadCount < len(r.unreadRunes)
 //@   assigns r.unreadCount, r.unreadRunes[all]
+//@   ensures [goes_back] netPos(r) == old(netPos(r)) - (ch != eof ? 1 : 0)
 //@   ensures [pushed] r.unreadCount == old(r.unreadCount) + 1 && r.unreadRunes[old(r.unreadCount)] == ch && (forall k int :: (0 <= k && k < old(r.unreadCount)) ==> r.unreadRunes[k] == old(r.unreadRunes[k]))
 //@   ensures [ok] inOK(r)
 
@@ -40,6 +53,7 @@ package excellent
 //@   requires s != nil && inOK(s.input) && inputOK() && s.input.unreadCount == 0
 //@   ensures [ends_at_first_unescaped_quote] (exists q int :: endsLiteral(old(ghost.scanPos), q) && (forall j int :: (old(ghost.scanPos) <= j && j < q) ==> !endsLiteral(old(ghost.scanPos), j)) && ghost.scanPos == q + 1) || ((forall j int :: (old(ghost.scanPos) <= j && j < len(ghost.scanIn)) ==> !endsLiteral(old(ghost.scanPos), j)) && ghost.scanPos == len(ghost.scanIn))
 //@   ensures [nothing_unread] s.input.unreadCount == 0 && inOK(s.input) && inputOK()
+//@   ensures [never_backwards] ghost.scanPos >= old(ghost.scanPos)
 //@   witness [ends_at_first_unescaped_quote] q := ghost.scanPos - 1
 // at the loop head ch is the rune just read (at scanPos - 1) and not yet looked at, or eof with the input used up
 //@ loop 1
@@ -56,13 +70,15 @@ package excellent
 //@   havocs WriteRune, String, ToLower, Sprintf
 //@   requires s != nil && inOK(s.input) && inputOK() && s.input.unreadCount <= 2
 //@   ensures [at_most_two_unread] inOK(s.input) && inputOK() && s.input.unreadCount <= 2
+//@   ensures [never_backwards] netPos(s.input) >= old(netPos(s.input))
 //@   ensures [nil_allows_all] s.identifierTopLevels == nil ==> result0 == IDENTIFIER
 //@   ensures [empty_allows_none] (s.identifierTopLevels != nil && len(s.identifierTopLevels) == 0) ==> result0 == BODY
 // at each loop head one rune has just been read: at most one is left unread
 //@ loop 1
 //@   invariant inOK(s.input) && inputOK() && s.input.unreadCount <= 1
+//@   invariant netPos(s.input) >= old(netPos(s.input)) + (ch != eof ? 1 : 0)
 //@ loop 2
-//@   invariant inOK(s.input) && inputOK() && s.input.unreadCount <= 2
+//@   invariant inOK(s.input) && inputOK() && s.input.unreadCount <= 2 && netPos(s.input) >= old(netPos(s.input))
 
 // scanExpression (called right after "@(", nothing unread): never leaves anything unread; a text literal inside is skipped by
 // readTextLiteral, so parentheses are only counted outside literals
@@ -72,8 +88,9 @@ package excellent
 //@   requires s != nil && inOK(s.input) && inputOK() && s.input.unreadCount == 0
 //@   ensures [nothing_unread] inOK(s.input) && inputOK() && s.input.unreadCount == 0
 //@   ensures [token] result0 == EXPRESSION || result0 == BODY
+//@   ensures [never_backwards] netPos(s.input) >= old(netPos(s.input))
 //@ loop 1
-//@   invariant inOK(s.input) && inputOK() && s.input.unreadCount == 0
+//@   invariant inOK(s.input) && inputOK() && s.input.unreadCount == 0 && netPos(s.input) >= old(netPos(s.input))
 
 // scanBody: stops in front of "@(" or "@name" by pushing the two runes back
 //@ func (s *xscanner) scanBody
@@ -82,13 +99,23 @@ package excellent
 //@   requires s != nil && inOK(s.input) && inputOK() && s.input.unreadCount <= 2
 //@   ensures [at_most_two_unread] inOK(s.input) && inputOK() && s.input.unreadCount <= 2
 //@   ensures [token] result0 == BODY
+//@   ensures [progress_unless_at_expression] netPos(s.input) > old(netPos(s.input)) || old(upcoming(s.input, 0) == eof) || old(upcoming(s.input, 0) == 64 && (upcoming(s.input, 1) == 40 || (upcoming(s.input, 1) != 64 && isNameChar(upcoming(s.input, 1)))))
+//@   ensures [never_backwards] netPos(s.input) >= old(netPos(s.input))
 //@ loop 1
 //@   invariant inOK(s.input) && inputOK() && s.input.unreadCount <= 1
+//@   invariant ch != eof ==> netPos(s.input) > old(netPos(s.input))
+//@   invariant netPos(s.input) >= old(netPos(s.input))
+//@   invariant (ch == eof && netPos(s.input) == old(netPos(s.input))) ==> old(upcoming(s.input, 0) == eof)
+//@   invariant (ch != eof && netPos(s.input) == old(netPos(s.input)) + 1) ==> (ch == old(upcoming(s.input, 0)) && upcoming(s.input, 0) == old(upcoming(s.input, 1)))
 
 // Scan: dispatches on the first one or two runes; whatever it reads ahead it pushes back, never more than the buffer holds
 //@ func (s *xscanner) Scan
 //@   nopanic
 //@   requires s != nil && inOK(s.input) && inputOK() && s.input.unreadCount <= 2
 //@   ensures [at_most_two_unread] inOK(s.input) && inputOK() && s.input.unreadCount <= 2
+// C04 (termination of template scanning): every token but EOF uses up at least one rune of the template
+//@   ensures [progress] result0 != EOF ==> netPos(s.input) > old(netPos(s.input))
 //@ loop 1
 //@   invariant inOK(s.input) && inputOK() && s.input.unreadCount <= 1
+//@   invariant ch != eof ==> (netPos(s.input) == old(netPos(s.input)) + 1 && ch == old(upcoming(s.input, 0)))
+//@   invariant ch == eof ==> netPos(s.input) == old(netPos(s.input))
